@@ -39,6 +39,45 @@ UNTRUSTED_OFFSETS = {"dictionary_page_offset", "data_page_offset", "data_start_o
                      "index_page_offset"}
 
 
+def _range_guards(fn, d):
+    """(lower-bound guards, upper-bound guards): if-statements with an exit whose condition - a single
+    comparison or an `||` chain of them - rejects `param < 0` resp. `param >= bound`, in any spelling
+    and whether written as one test or as consecutive tests."""
+    lo, hi = [], []
+    for n in fn.body.walk():
+        if n.k != "IfStmt":
+            continue
+        kids = [x for x in n.c if x is not None]
+        if not any(r.k in ("ReturnStmt", "GotoStmt") for r in kids[1].walk()):
+            continue
+        leaves = []
+
+        def split(c):
+            c = c.strip()
+            if c.k == "BinaryOperator" and c.op == "||":
+                split(c.c[0])
+                split(c.c[1])
+            else:
+                leaves.append(c)
+        split(kids[0])
+        for lf in leaves:
+            if lf.k != "BinaryOperator" or lf.op not in ("<", "<=", ">", ">="):
+                continue
+            l, r = lf.c[0].strip_casts(), lf.c[1].strip_casts()
+            op = lf.op
+            if r.k == "DeclRefExpr" and r.get("d") == d and r.get("dk") == "param":
+                l, r = r, l
+                op = {"<": ">", "<=": ">=", ">": "<", ">=": "<="}[op]
+            if not (l.k == "DeclRefExpr" and l.get("d") == d and l.get("dk") == "param"):
+                continue
+            rv = lf.c[1].cv if r is lf.c[1].strip_casts() else lf.c[0].cv
+            if op == "<" and rv == 0 or op == "<=" and rv == -1:
+                lo.append(n)
+            elif op in (">=", ">") and rv is None:
+                hi.append(n)
+    return lo, hi
+
+
 def _first_cfg(fn, stmt):
     w = fn.cfg.where()
     best = None
@@ -157,18 +196,42 @@ def run(ctx):
             ctx.ob("R3.extent", "mapped-length|%s:%s|%s" % (PR, name, k_), PR,
                    "%s: the byte count given as %s comes only from %s (the field checked by page_extent_ok) or from "
                    "the decompressor's output" % (name, k_[4:], sorted(allowed)), got <= allowed, "derives from %s" % sorted(got))
+    # the two extent predicates, evaluated exhaustively over a grid of sizes (abstract execution): robust
+    # to how the comparisons are spelled
+    from ..rules import sem
     pe = P.fn("page_extent_ok", PR)
-    txt = " ".join(src(r.c[0]) if r.c and r.c[0] is not None else "" for r in pe.returns()) + " " + \
-        " ".join(src([x for x in n.c if x is not None][0]) for n in pe.body.walk() if n.k == "IfStmt")
-    ctx.ob("R3.extent", "page-extent-body|%s:page_extent_ok" % PR, P.where(pe.body),
-           "page_extent_ok rejects negative sizes and compressed_page_size > avail - header_size",
-           "compressed_page_size < 0" in txt and "uncompressed_page_size < 0" in txt and "header_size > avail" in txt
-           and "avail - header_size" in txt, txt[:160])
+    ho = sem.field_offsets(P, "parquet_page_header")
+    badp = None
+    try:
+        for c in (-5, -1, 0, 1, 10, 100, 0x7FFFFFFF):
+            for u in (-1, 0, 50):
+                for hs in (0, 5, 20, 40):
+                    for av in (0, 5, 20, 25, 30, 120):
+                        ret, ev, heap = sem.run(P, pe, [sem.Ptr("ph", 0, 1), hs, av], heap0={
+                            ("ph", ho["compressed_page_size"]): c, ("ph", ho["uncompressed_page_size"]): u})
+                        want = c >= 0 and u >= 0 and hs <= av and c <= av - hs
+                        if bool(ret) != want and badp is None:
+                            badp = "compressed %d, uncompressed %d, header %d, available %d: returns %s" % (c, u, hs, av, ret)
+        ctx.ob("R3.extent", "page-extent-body|%s:page_extent_ok" % PR, P.where(pe.body),
+               "page_extent_ok accepts exactly: sizes >= 0, header_size <= avail, compressed_page_size <= avail - header_size "
+               "(504 size combinations)", badp is None, badp or "")
+    except sem.Inconclusive as ex:
+        ctx.inconclusive("R3.extent", "page-extent-body|%s:page_extent_ok" % PR, P.where(pe.body), "abstract execution", str(ex))
     ma = P.fn("mmap_available", PR)
-    txt = " ".join(src([x for x in n.c if x is not None][0]) for n in ma.body.walk() if n.k == "IfStmt")
-    ctx.ob("R3.extent", "mmap-available-body|%s:mmap_available" % PR, P.where(ma.body),
-           "mmap_available returns 0 for negative offsets and offsets at or beyond file_size",
-           "offset < 0" in txt and ">=" in txt and "file_size" in txt, txt[:120])
+    ro = sem.field_offsets(P, "carquet_reader")
+    badm = None
+    try:
+        for fs in (0, 1, 100, 1 << 33):
+            for off in (-(1 << 40), -1, 0, 1, 50, 99, 100, 101, 1 << 33, (1 << 33) + 1, 1 << 40):
+                ret, ev, heap = sem.run(P, ma, [sem.Ptr("rd", 0, 1), off], heap0={("rd", ro["file_size"]): fs})
+                want = 0 if (off < 0 or off >= fs) else fs - off
+                if ret != want and badm is None:
+                    badm = "file_size %d, offset %d: returns %s, expected %d" % (fs, off, ret, want)
+        ctx.ob("R3.extent", "mmap-available-body|%s:mmap_available" % PR, P.where(ma.body),
+               "mmap_available returns file_size - offset inside the file and 0 for negative offsets and offsets at or "
+               "beyond file_size", badm is None, badm or "")
+    except sem.Inconclusive as ex:
+        ctx.inconclusive("R3.extent", "mmap-available-body|%s:mmap_available" % PR, P.where(ma.body), "abstract execution", str(ex))
     # zero-copy hand-out holds its values; num_values tested for negativity
     ln = P.fn("load_next_page_mmap", PR)
     zc = _guards(ln, lambda c: "num_values" in src(c) and "compressed_page_size" in src(c) and "value_size" in src(c))
@@ -263,25 +326,22 @@ def run(ctx):
                 continue
             ni += 1
             key = "index-arg|%s:%s|%s" % (P.rel(fn.file), fn.name, p["n"])
-            guards = []
-            for n in fn.body.walk():
-                if n.k != "IfStmt":
-                    continue
-                kids = [x for x in n.c if x is not None]
-                c = src(kids[0])
-                if ("%s < 0" % p["n"]) in c and ("%s >=" % p["n"]) in c and any(r.k == "ReturnStmt" for r in kids[1].walk()):
-                    guards.append(n)
-            ok = bool(guards) and all(fn.cfg.node_dominates(_first_cfg(fn, guards[0]), s) for s in subs)
+            lo, hi = _range_guards(fn, p["d"])
+            ok = any(all(fn.cfg.node_dominates(_first_cfg(fn, g), s_) for s_ in subs) for g in lo) and \
+                any(all(fn.cfg.node_dominates(_first_cfg(fn, g), s_) for s_ in subs) for g in hi)
             how = "own guard"
             if not ok:
                 # first handed to a callee that checks it and whose failure is returned before the subscript
                 for c in fn.calls():
-                    if c.callee and any(a.strip_casts().k == "DeclRefExpr" and a.strip_casts().get("d") == p["d"] for a in c.args()):
-                        cal = P.by_name.get(c.callee, [])
-                        if cal and any(("%s < 0" % q["n"]) in " ".join(src([x for x in n.c if x is not None][0])
-                                                                         for n in cal[0].body.walk() if n.k == "IfStmt")
-                                       for q in cal[0].params if q["n"] in IDX):
-                            if all(fn.cfg.node_dominates(c, s) for s in subs):
+                    if not c.callee:
+                        continue
+                    pos = [i for i, a in enumerate(c.args()) if a.strip_casts().k == "DeclRefExpr" and a.strip_casts().get("d") == p["d"]]
+                    if not pos:
+                        continue
+                    for cal in P.by_name.get(c.callee, []):
+                        if pos[0] < len(cal.params) and cal.cfg is not None:
+                            clo, chi = _range_guards(cal, cal.params[pos[0]]["d"])
+                            if clo and chi and all(fn.cfg.node_dominates(c, s_) for s_ in subs):
                                 ok = True
                                 how = "checked by %s first" % c.callee
             ctx.ob("R6.index", key, P.where(fn.body),
